@@ -58,3 +58,48 @@ pub fn edge_u64() -> BoxedStrategy<u64> {
 pub fn pick(ix: u16, len: usize) -> usize {
     ((ix as usize) * len) >> 16
 }
+
+/// edge-biased u128 from fuzz bytes
+pub fn arb_u128(u: &mut arbitrary::Unstructured) -> u128 {
+    let sel: u8 = u.arbitrary().unwrap_or(0);
+    match sel % 16 {
+        0 => 0,
+        1 => 1,
+        2 => 2,
+        3..=7 => u.arbitrary::<u16>().unwrap_or(0) as u128 % 1000,
+        8 => u.arbitrary::<u32>().unwrap_or(0) as u128,
+        9 => 1u128 << 32,
+        10 => u64::MAX as u128,
+        11 => (1u128 << 64) + (u.arbitrary::<u8>().unwrap_or(0) as u128),
+        12 => 1u128 << 127,
+        13 => u128::MAX - (u.arbitrary::<u8>().unwrap_or(0) as u128 % 3),
+        _ => u.arbitrary::<u128>().unwrap_or(0),
+    }
+}
+
+pub fn arb_u64(u: &mut arbitrary::Unstructured) -> u64 {
+    let sel: u8 = u.arbitrary().unwrap_or(0);
+    match sel % 12 {
+        0 => 0,
+        1 => 1,
+        2 => 2,
+        3..=6 => u.arbitrary::<u8>().unwrap_or(0) as u64 % 100,
+        7 => u.arbitrary::<u32>().unwrap_or(0) as u64,
+        8 => 1u64 << 32,
+        9 => u64::MAX - (u.arbitrary::<u8>().unwrap_or(0) as u64 % 3),
+        10 => 1u64 << 63,
+        _ => u.arbitrary::<u64>().unwrap_or(0),
+    }
+}
+
+pub fn arb_below(u: &mut arbitrary::Unstructured, n: usize) -> usize {
+    if n <= 1 {
+        0
+    } else {
+        u.int_in_range(0..=n - 1).unwrap_or(0)
+    }
+}
+
+pub fn arb_bool(u: &mut arbitrary::Unstructured, num: u8, den: u8) -> bool {
+    (u.arbitrary::<u8>().unwrap_or(0) % den.max(1)) < num
+}
